@@ -407,3 +407,108 @@ func (t *failingTransport) Do(req *http.Request) (*http.Response, error) {
 	_ = req.Body.Close()
 	return nil, t.err
 }
+
+// HarnessC06CompressedGarbage: the server declares a registered compression
+// and sends arbitrary bytes as the compressed payload.  The decompressor has
+// the life cycle of the default gzip.Reader (gzipLikeDecompressor): the very
+// first compressed response a fresh client sees may fail in Reset.  The call
+// must fail with a coded error (or succeed when the bytes happen to be a
+// valid stream) - never panic - and a second, well-formed response on the
+// same client must then decode correctly.
+//
+//verif:harness property=C06 stubs=json,wire shard=proto:3
+func HarnessC06CompressedGarbage() {
+	proto := nondetChoice("proto", 3)
+	unary := proto == 0 && nondetBool("unary")
+	payload := nondetBytes("compressed", bound("garbageLen", 3, 4))
+	valid := len(payload) >= 1 && payload[0] == 0xC5
+	mk := func(payload []byte) *http.Response { return c06CompressedResponse(proto, unary, payload) }
+	tr := &cannedTransport{resp: mk(payload)}
+	opts := stackClientOptions(proto, WithAcceptCompression("gzip", func() Decompressor { return &gzipLikeDecompressor{} }, func() Compressor { return &xorCompressor{} }))
+	client := NewClient[[]byte, []byte](tr, stackURL, opts...)
+	call := func() ([]byte, error) {
+		in := []byte{1}
+		if proto == 0 && !unary {
+			stream, err := client.CallServerStream(context.Background(), NewRequest(&in))
+			if err != nil {
+				return nil, err
+			}
+			var got []byte
+			n := 0
+			for stream.Receive() {
+				got = append([]byte{}, *stream.Msg()...)
+				n++
+				if n > 2 {
+					check(false, "the receive loop terminates")
+					break
+				}
+			}
+			err = stream.Err()
+			_ = stream.Close()
+			if err == nil {
+				check(n == 1, "one data frame is one message")
+			}
+			return got, err
+		}
+		res, err := client.CallUnary(context.Background(), NewRequest(&in))
+		if err != nil {
+			return nil, err
+		}
+		return *res.Msg, nil
+	}
+	got, err := call()
+	c06CheckSafe(err, "compressed garbage")
+	switch {
+	case len(payload) == 0:
+		// a zero-length message is legal whatever the compressed flag says
+		check(err == nil && len(got) == 0, "an empty compressed payload is the empty message")
+	case valid:
+		check(err == nil, "a validly compressed response is accepted")
+		if err == nil {
+			want := make([]byte, len(payload)-1)
+			for i, b := range payload[1:] {
+				want[i] = b ^ 0x5A
+			}
+			check(bytesEq(got, want), "a validly compressed response decodes to its message")
+		}
+	default:
+		check(err != nil, "a corrupt compressed payload is an error, not a message")
+	}
+	// the same client afterwards
+	tr.resp = mk([]byte{0xC5, 0x41 ^ 0x5A})
+	got2, err2 := call()
+	check(err2 == nil, "after a corrupt response the client still decodes a well-formed compressed response")
+	if err2 == nil {
+		check(bytesEq(got2, []byte{0x41}), "the later response decodes to its own message")
+	}
+}
+
+// c06CompressedResponse: a 200 response whose single message is marked as
+// compressed with "gzip" and carries payload as its compressed bytes.
+func c06CompressedResponse(proto int, unary bool, payload []byte) *http.Response {
+	header := http.Header{}
+	var body []byte
+	switch {
+	case unary:
+		header.Set("Content-Type", "application/proto")
+		header.Set("Content-Encoding", "gzip")
+		body = payload
+	case proto == 0:
+		header.Set("Content-Type", "application/connect+proto")
+		header.Set("Connect-Content-Encoding", "gzip")
+		body = append(refFrame(1, payload), refFrame(0x02, c06EndStream(false, nil, "", ""))...)
+	case proto == 1:
+		header.Set("Content-Type", "application/grpc+proto")
+		header.Set("Grpc-Encoding", "gzip")
+		body = refFrame(1, payload)
+	default:
+		header.Set("Content-Type", "application/grpc-web+proto")
+		header.Set("Grpc-Encoding", "gzip")
+		body = append(refFrame(1, payload), refFrame(0x80, []byte("grpc-status: 0\r\n"))...)
+	}
+	resp := &http.Response{StatusCode: 200, Status: "200 OK", ProtoMajor: 2, Header: header, Trailer: http.Header{}, Body: io.NopCloser(&wholeReader{data: body})}
+	if proto == 1 {
+		resp.Trailer.Set("Grpc-Status", "0")
+	}
+	return resp
+}
